@@ -429,7 +429,13 @@ pub fn run_c11(ctx: &mut Ctx) -> RunResult {
     ctx.tr(|| format!("  role {:?} own offset {} (high {}) peer scheme {:?} offset {} lazy {}", role, own_offset, high_own, peer_scheme, peer_offset, lazy));
 
     let mut hs = Handshake::new(peer_type(role));
-    let peer_p1 = rh::make_p1(role.other(), peer_scheme, peer_offset, high_peer, peer_seed);
+    // the 8 leading bytes (time, version) of the peer's packet 1 are free: typical, all zero,
+    // zero version, random
+    let header = ctx.ch.weighted("cfg.p1header", &[3, 2, 2, 2]) as u64;
+    if header == 1 || header == 2 {
+        ctx.probe("c11.peer_p1_zero_version");
+    }
+    let peer_p1 = rh::make_p1_with_header(role.other(), peer_scheme, peer_offset, high_peer, peer_seed, header);
     let peer_digest = match rh::verify_p1(&peer_p1, role.other()) {
         Some((_, _, d)) => d,
         None => return Err(Violation::new("HARNESS/ref-handshake", "reference p1 does not verify")),
